@@ -366,13 +366,13 @@ def watchdog(fn, timeout, *args, **kwargs):
     return box.get('r', ('hang', None))
 
 
-def spawn_server(addr=('127.0.0.1', 0), timeout=40):
+def spawn_server(addr=('127.0.0.1', 0), timeout=40, **kw):
     """pyworkers.remote_server.spawn_server under a watchdog: the constructor of the server process blocks
     without a bound while the child starts, so a start-up hiccup of the machine must not hang the check."""
     repo_on_path()
     from pyworkers.remote_server import spawn_server as real
     for attempt in (1, 2):
-        st, srv = watchdog(lambda: real(addr), timeout)
+        st, srv = watchdog(lambda: real(addr, **kw), timeout)
         if st == 'ok':
             return srv
     raise Infra(f'cannot start a remote server process: {st} {srv!r}')
